@@ -25,13 +25,14 @@ mod proofs {
 
 	#[kani::proof_for_contract(ordered_contains_duplicates)]
 	#[kani::stub(crate::handle_unwind::handle_unwind, crate::verif::stubs::handle_unwind_nopanic)]
-	#[kani::unwind(6)]
+	#[kani::unwind(9)]
 	fn c07_q_contract_ordered_contains_duplicates() {
-		let u = <[M; 3] as Make<3>>::make([0; 3]);
+		// every list of length 0..6 over 5 locks (the precondition of the contract is len <= 6)
+		let u = <[M; 5] as Make<5>>::make([0; 5]);
 		let n: usize = kani::any();
-		kani::assume(n <= 3);
-		let p = [idx::<3>(), idx::<3>(), idx::<3>()];
-		let all: [&dyn RawLock; 3] = [&u[p[0]], &u[p[1]], &u[p[2]]];
+		kani::assume(n <= 6);
+		let p: [usize; 6] = core::array::from_fn(|_| idx::<5>());
+		let all: [&dyn RawLock; 6] = core::array::from_fn(|i| &u[p[i]] as &dyn RawLock);
 		let _ = ordered_contains_duplicates(&all[..n]);
 	}
 
